@@ -96,3 +96,85 @@ def make_rel(rng, N=8, order=4, vacuum=False, Lambda=0.0, shift=True, fluid=Fals
         rel.data[k] = v_
     rel.freeze_data()
     return rel
+
+
+# ----------------------------------------------------------------------------- request-history pass (generic)
+def cone_alternatives(index, keys):
+    """(quantity, presence set) of every alternative recorded by the translator from the CURRENT source for every
+    quantity in the dependency cone of `keys` (one entry per distinct non-empty presence set)."""
+    deps, alts = {}, {}
+    for i in index:
+        if i.get("status") != "ok":
+            continue
+        deps.setdefault(i["key"], set()).update(i["deps"])
+        for ps in i["present_sets"]:
+            alts.setdefault(i["key"], set()).add(tuple(sorted(ps)))
+    cone, todo = set(), list(keys)
+    while todo:
+        k = todo.pop()
+        if k in cone:
+            continue
+        cone.add(k)
+        todo += [d for d in deps.get(k, ()) if d not in cone]
+    seen, out = set(), []
+    for k in sorted(cone):
+        for ps in sorted(alts.get(k, ())):
+            if ps and ps not in seen:
+                seen.add(ps)
+                out.append((k, list(ps)))
+    return out
+
+
+def _central(a, N):
+    lo, hi = (3 * N) // 8, N - (3 * N) // 8
+    return a[..., lo:hi, lo:hi, lo:hi]
+
+
+def history_pass(ctx, index, keys, factory, prop, Ns=(8, 16), max_alts=None):
+    """For every alternative ('X already in the cache') that the translator recorded in the dependency cone of `keys`:
+    request the presence set first, then `keys`, on instances built by `factory(N)` (same smooth fields at every N);
+    the deviation from a fresh instance that is asked for the key alone must be round-off, or a discretisation-level
+    difference that shrinks by at least 2.5x when the resolution doubles. A wrong alternative deviates by O(1) at
+    both resolutions. Returns the number of violations reported."""
+    import aurel
+    alts = cone_alternatives(index, keys)
+    if max_alts is not None and len(alts) > max_alts:
+        ctx.rng.shuffle(alts)
+        alts = alts[:max_alts]
+    ctx.cov["history_pass_alternatives"] = len(alts)
+    found = 0
+    fresh = {}
+    for N in Ns:
+        for key in keys:
+            fresh[(N, key)] = np.asarray(factory(N)[key]).copy()
+    for k, ps in alts:
+        dev = {}
+        ok_req = True
+        for N in Ns:
+            rel = factory(N)
+            try:
+                for q in ps:
+                    if q in aurel.descriptions:
+                        rel[q]
+            except Exception:  # noqa
+                ok_req = False
+                break
+            for key in keys:
+                f = fresh[(N, key)]
+                d = _central(np.asarray(rel[key]) - f, N)
+                dev[(N, key)] = (float(np.max(np.abs(d))) if d.size else 0.0, max(1.0, float(np.max(np.abs(f)))))
+        if not ok_req:
+            ctx.count("history_pass_unrequestable")
+            continue
+        for key in keys:
+            ctx.count("history_pass_evaluations")
+            (d1, s1), (d2, s2) = dev[(Ns[0], key)], dev[(Ns[-1], key)]
+            floor = 1e-10 * s2
+            if d2 <= floor or (d1 > 0 and d2 <= d1 / 2.5):
+                continue
+            found += 1 if ctx.violation(
+                "%s after requesting %s first (alternative of %s) differs from a fresh instance by %.3g at N=%d and %.3g at N=%d: "
+                "neither round-off nor a discretisation-level difference" % (key, ps, k, d1, Ns[0], d2, Ns[-1]),
+                {"kind": "history", "key": key, "requested_first": ps, "alternative_of": k, "deviation": [d1, d2], "N": list(Ns)},
+                {"site": key, "oracle": "history-independence", "alternative_of": k}) else 0
+    return found
